@@ -145,9 +145,25 @@ func (engine *Rewriter) applyOptionRules(schemas ast.Schemas, builders []ast.Bui
 // an option that is gone can not be called any more.
 func (engine *Rewriter) factoriesFollowOption(builder *ast.Builder, original ast.Option, rewritten []ast.Option) error {
 	for _, opt := range rewritten {
-		if opt.Name == original.Name {
+		if opt.Name != original.Name {
+			continue
+		}
+
+		// the option keeps its name: the factories that call it keep working as long as it
+		// takes the arguments it took (`time(time)` against `time(from, to)`)
+		if sameArguments(opt.Args, original.Args) {
 			return nil
 		}
+
+		for _, factory := range builder.Factories {
+			for _, call := range factory.OptionCalls {
+				if call.Name == original.Name {
+					return fmt.Errorf("[%s.%s] the factory '%s' calls the option '%s', whose arguments a veneer changes", builder.Package, builder.Name, factory.Name, original.Name)
+				}
+			}
+		}
+
+		return nil
 	}
 
 	calls := false
@@ -183,6 +199,41 @@ func (engine *Rewriter) factoriesFollowOption(builder *ast.Builder, original ast
 	builder.Factories = factories
 
 	return nil
+}
+
+// sameArguments tells whether two lists of arguments take the same values: as
+// many arguments, of the same types.
+func sameArguments(args []ast.Argument, others []ast.Argument) bool {
+	if len(args) != len(others) {
+		return false
+	}
+
+	for i := range args {
+		if !sameArgumentType(args[i].Type, others[i].Type) {
+			return false
+		}
+	}
+
+	return true
+}
+
+func sameArgumentType(def ast.Type, other ast.Type) bool {
+	if def.Kind != other.Kind {
+		return false
+	}
+
+	switch {
+	case def.IsRef():
+		return def.AsRef().ReferredPkg == other.AsRef().ReferredPkg && def.AsRef().ReferredType == other.AsRef().ReferredType
+	case def.IsScalar():
+		return def.AsScalar().ScalarKind == other.AsScalar().ScalarKind
+	case def.IsArray():
+		return sameArgumentType(def.AsArray().ValueType, other.AsArray().ValueType)
+	case def.IsMap():
+		return sameArgumentType(def.AsMap().IndexType, other.AsMap().IndexType) && sameArgumentType(def.AsMap().ValueType, other.AsMap().ValueType)
+	}
+
+	return true
 }
 
 func (engine *Rewriter) debugBuilderRules() []builder.RewriteRule {
